@@ -137,6 +137,57 @@ fn sim_machine(r: &mut GRng) -> MMachine {
     m
 }
 
+fn one_shot(action: MAction, on: &[&str], limit_loop: bool) -> MMachine {
+    // state 0 waits for a trigger, state 1 carries the action and re-arms on the same triggers
+    let mut t0 = std::collections::BTreeMap::new();
+    let mut t1 = std::collections::BTreeMap::new();
+    for e in on {
+        t0.insert(e.to_string(), vec![(1i64, 16u32)]);
+        t1.insert(e.to_string(), vec![(if limit_loop { 1 } else { 0 }, 16u32)]);
+    }
+    MMachine {
+        allowedPad: -1,
+        padFrac: (0, 1),
+        allowedBlock: -1,
+        blockFrac: (0, 1),
+        states: vec![
+            MState { action: MAction::none(), ca: MCtr::none(), cb: MCtr::none(), trans: t0 },
+            MState { action, ca: MCtr::none(), cb: MCtr::none(), trans: t1 },
+        ],
+    }
+}
+
+/// templates that make blocking periods overlap and padding meet them
+fn blocking_mix(r: &mut GRng) -> Vec<MMachine> {
+    let mut v = Vec::new();
+    let nb = r.gen_range(1..=2);
+    for _ in 0..nb {
+        let mut a = MAction::none();
+        a.kind = "BlockOutgoing".into();
+        a.bypass = r.gen();
+        a.replace = r.gen();
+        a.timeout = MDist::constant(*[0i64, 10, 20, 40].get(r.gen_range(0..4)).unwrap());
+        a.duration = MDist::constant(*[0i64, 50, 200, 300, 1000].get(r.gen_range(0..5)).unwrap());
+        let trig: &[&str] = if r.gen_bool(0.5) { &["NormalSent"] } else { &["NormalSent", "BlockingBegin", "NormalRecv"] };
+        v.push(one_shot(a, trig, r.gen_bool(0.5)));
+    }
+    let mut p = MAction::none();
+    p.kind = "SendPadding".into();
+    p.bypass = r.gen_bool(0.7);
+    p.replace = r.gen_bool(0.4);
+    p.timeout = MDist::constant(*[0i64, 5, 30, 60, 100, 250].get(r.gen_range(0..6)).unwrap());
+    let trig: &[&str] = if r.gen_bool(0.5) { &["NormalSent", "BlockingBegin"] } else { &["BlockingBegin", "PaddingSent", "NormalRecv"] };
+    v.push(one_shot(p, trig, true));
+    if r.gen_bool(0.3) {
+        let mut t = MAction::none();
+        t.kind = "UpdateTimer".into();
+        t.replace = r.gen();
+        t.duration = MDist::constant(*[0i64, 7, 70].get(r.gen_range(0..3)).unwrap());
+        v.push(one_shot(t, &["NormalSent", "TimerEnd", "BlockingEnd"], true));
+    }
+    v
+}
+
 struct Scenario {
     trace: Vec<(i64, bool)>, // (time us, client sent?)
     delay_us: u64,
@@ -238,6 +289,9 @@ fn main() {
         let gen_side = |g: &mut GRng| -> Vec<MMachine> {
             if no_machines {
                 return vec![];
+            }
+            if g.gen_range(0..3) == 0 {
+                return blocking_mix(g);
             }
             let n = *[0usize, 1, 1, 2].get(g.gen_range(0..4)).unwrap();
             let mut v = Vec::new();
